@@ -35,11 +35,12 @@ type Cell struct {
 	PauseMs   int64  `json:"pause_ms"`
 	ID        bool   `json:"id"`
 	Bound     int    `json:"bound"`
+	Stale     bool   `json:"stale,omitempty"` // phout: the destination exists already, left by a longer earlier run
 	Big       bool   `json:"big,omitempty"` // jsonlines: smallest buffer, samples of ~700 bytes with a json.Marshaler field: the encoder writes through to the sink by itself
 }
 
 func (c Cell) Name() string {
-	return fmt.Sprintf("%s|R=%d|k=%d|queue=%d|flush=%dms|pause=%dms|id=%v|big=%v", c.Kind, c.Reporters, c.Per, c.Queue, c.FlushMs, c.PauseMs, c.ID, c.Big)
+	return fmt.Sprintf("%s|R=%d|k=%d|queue=%d|flush=%dms|pause=%dms|id=%v|big=%v|stale=%v", c.Kind, c.Reporters, c.Per, c.Queue, c.FlushMs, c.PauseMs, c.ID, c.Big, c.Stale)
 }
 
 type jsample struct {
@@ -75,6 +76,10 @@ func (r *run) scenario(x *vs.X) func(end, msg string) error {
 	switch c.Kind {
 	case "phout":
 		r.fs = afero.NewMemMapFs()
+		if c.Stale {
+			old := strings.Repeat("1700000000.000\told#9999\t1\t2\t3\t4\t5\t6\t9999\t8\t9\t200\n", 40) + "1700000000.000\ttorn"
+			_ = afero.WriteFile(r.fs, "phout.log", []byte(old), 0o644)
+		}
 		a, err := netsample.NewPhout(r.fs, netsample.PhoutConfig{Destination: "phout.log", ID: c.ID, SampleQueueSize: c.Queue})
 		if err != nil {
 			panic(err)
@@ -227,6 +232,9 @@ func cells(thorough bool) []Cell {
 				}
 			}
 		}
+	}
+	for _, R := range []int{1, 2} {
+		out = append(out, Cell{Kind: "phout", Reporters: R, Per: 2, Queue: 64, FlushMs: 1000, ID: R == 1, Bound: R - 1, Stale: true})
 	}
 	for _, kind := range []string{"phout", "jsonlines"} {
 		for R := 1; R <= 3; R++ {
